@@ -5,6 +5,7 @@ hydro_lang::setup!();
 pub mod c28;
 pub mod c30;
 pub mod c32;
+pub mod matrix;
 pub mod compose;
 pub mod net;
 pub mod sec;
